@@ -259,3 +259,48 @@ Lemma get_entry_aset_other k k' v s : beq k k' = false -> get_entry (aset k' v s
 Proof. intros H; unfold get_entry. rewrite alookup_aset_other by exact H. reflexivity. Qed.
 Lemma get_refs_aset_other k k' v s : beq k k' = false -> get_refs (aset k' v s) k = get_refs s k.
 Proof. intros H; unfold get_refs. rewrite alookup_aset_other by exact H. reflexivity. Qed.
+
+(* ---- a background validation whose answer arrives after the entry was invalidated ---- *)
+(* what backgroundRevalidate does once the origin has answered (the continuation of its timed round trip) *)
+Definition background_after_reply (q : request) (stored : stored_entry) (url_key : bytes)
+           (f : freshness) (cc_req : directives) (rep : origin_reply) (start stop : Z) : prog unit :=
+  match rep with
+  | RErr => Ret tt
+  | RResp _ =>
+      GetEntry (e_id stored) (fun own =>
+        match own with
+        | None => Ret tt
+        | Some own_entry =>
+            if match rep with RResp r => p_status r =? 304 | RErr => false end &&
+               negb (sent_validators_of (q_hdr q) (e_hdr own_entry))
+            then Ret tt else
+            get_refs_clean url_key (fun ans =>
+              let refs := match ans with Some l => l | None => [] end in
+              let ctx := {| rc_url_key := url_key; rc_start := start; rc_end := stop; rc_cc_req := cc_req;
+                            rc_stored := own_entry; rc_fresh := f; rc_refs := refs;
+                            rc_ref_index := ref_index_of (e_id stored) refs 0;
+                            rc_no_stale := false |} in
+              _ <- handle_validation_response ctx q rep ;; Ret tt)
+        end)
+  end.
+
+Lemma background_revalidate_after_reply q stored url_key f cc_req :
+  background_revalidate q stored url_key f cc_req =
+  round_trip_timed q (background_after_reply q stored url_key f cc_req).
+Proof. reflexivity. Qed.
+
+Lemma late_validation_discarded limit q stored url_key f cc_req rep start stop w :
+  gone (e_id stored) w ->
+  run limit (background_after_reply q stored url_key f cc_req rep start stop) w =
+  (Done tt, match rep with
+            | RErr => w
+            | RResp _ => log_event w (EvGetEntry (e_id stored) false)
+            end).
+Proof.
+  intros Hg. unfold background_after_reply. destruct rep as [|r]; [reflexivity|].
+  cbn [run]. unfold get_entry. unfold gone in Hg. rewrite Hg. reflexivity.
+Qed.
+
+(* the store, the clock, the script and the pending work are those of before: only the log grew *)
+Lemma log_event_store w ev : w_store (log_event w ev) = w_store w.
+Proof. reflexivity. Qed.
